@@ -92,7 +92,43 @@ Proof. induction l as [|a l IH]; simpl; auto. destruct (q a); simpl; now rewrite
 Lemma existsb_ext' {A} (p q : A -> bool) l : (forall x, In x l -> p x = q x) -> existsb p l = existsb q l.
 Proof. induction l as [|a l IH]; simpl; intros H; auto. rewrite (H a), IH; auto. Qed.
 
-(* any performed read that fails makes SyncMetas return an error *)
+(* what the classification makes of a faulted read *)
+Lemma meta_faulted_err f x : has_meta x = true -> meta_faulted f x = true -> meta_err f x = true.
+Proof.
+  intros Hm Hf. unfold meta_err, meta_result, has_meta in *. rewrite Hf. destruct (smeta x); simpl; auto; discriminate.
+Qed.
+
+Lemma loaded_not_faulted f x : loaded f x = true -> smeta x = MOk /\ meta_faulted f x = false.
+Proof.
+  unfold loaded, meta_result. destruct (smeta x); simpl; try discriminate.
+  destruct (meta_faulted f x); simpl; [discriminate|auto].
+  destruct (meta_faulted f x); simpl; discriminate.
+Qed.
+
+Lemma del_open_fault_err f x : f (RDel (sid x)) = true -> del_err f x = true.
+Proof.
+  intros Hf. unfold del_err, del_result, del_faulted. rewrite Hf. destruct (sdel x); reflexivity.
+Qed.
+
+Lemma del_body_fault_err f x : has_del x = true -> f (RDelBody (sid x)) = true -> del_err f x = true.
+Proof.
+  intros Hd Hf. unfold del_err, del_result, del_faulted, has_del in *. rewrite Hf, orb_true_r.
+  destruct (sdel x); try reflexivity; discriminate.
+Qed.
+
+Lemma noc_open_fault_err f x : f (RNoc (sid x)) = true -> noc_err f x = true.
+Proof.
+  intros Hf. unfold noc_err, noc_result, noc_faulted. rewrite Hf. destruct (snoc x); reflexivity.
+Qed.
+
+Lemma noc_body_fault_err f x : has_noc x = true -> f (RNocBody (sid x)) = true -> noc_err f x = true.
+Proof.
+  intros Hd Hf. unfold noc_err, noc_result, noc_faulted, has_noc in *. rewrite Hf, orb_true_r.
+  destruct (snoc x); try reflexivity; discriminate.
+Qed.
+
+(* any performed read that fails — when it is opened or in the middle of its body —
+   makes SyncMetas return an error *)
 Lemma sync_fails conc f b r : performed conc f b r = true -> f r = true -> sync conc f b = None.
 Proof.
   intros Hp Hf. unfold sync.
@@ -101,27 +137,39 @@ Proof.
   destruct (existsb (del_err f) (filter (loaded f) b)) eqn:ED; auto.
   destruct (existsb (noc_err f) (after_dedup f b)) eqn:EN; auto.
   destruct (existsb (meta_err f) b) eqn:EM; auto.
-  exfalso. destruct r as [|i|i|i|i]; simpl in Hp.
+  exfalso.
+  assert (HM : forall x, In x b -> has_meta x = true -> meta_faulted f x = true -> False).
+  { intros x Hx Hm Hfx. assert (existsb (meta_err f) b = true); [|congruence].
+    apply existsb_exists. exists x. split; auto using meta_faulted_err. }
+  assert (HD : forall x, In x b -> loaded f x = true -> del_err f x = true -> False).
+  { intros x Hx Hl He. assert (existsb (del_err f) (filter (loaded f) b) = true); [|congruence].
+    apply existsb_exists. exists x. split; auto. apply filter_In; auto. }
+  assert (HN : forall x, In x (noc_read f b) -> noc_err f x = true -> False).
+  { intros x Hx He. unfold noc_read in Hx. rewrite ED in Hx.
+    assert (existsb (noc_err f) (after_dedup f b) = true); [|congruence].
+    apply existsb_exists. eauto. }
+  destruct r as [|i|i|i|i|i|i|i]; simpl in Hp.
   - congruence.
   - apply andb_true_iff in Hp. destruct Hp as [Hc Hx]. subst conc. simpl in EE.
     apply existsb_exists in Hx. destruct Hx as (x & Hx & E). apply Z.eqb_eq in E. subst i.
     assert (existsb (fun x => f (RExists (sid x))) b = true) by (apply existsb_exists; eauto). congruence.
   - apply existsb_exists in Hp. destruct Hp as (x & Hx & E). apply andb_true_iff in E. destruct E as [E Hm].
-    apply Z.eqb_eq in E. subst i.
-    assert (existsb (meta_err f) b = true); [|congruence].
-    apply existsb_exists. exists x. split; auto. unfold meta_err, has_meta in *. destruct (smeta x); auto; discriminate.
+    apply Z.eqb_eq in E. subst i. apply (HM x Hx Hm). unfold meta_faulted. now rewrite Hf.
+  - apply existsb_exists in Hp. destruct Hp as (x & Hx & E). apply andb_true_iff in E. destruct E as [E Hm].
+    apply Z.eqb_eq in E. subst i. apply (HM x Hx Hm). unfold meta_faulted. now rewrite Hf, orb_true_r.
   - apply existsb_exists in Hp. destruct Hp as (x & Hx & E). apply andb_true_iff in E. destruct E as [E Hl].
-    apply Z.eqb_eq in E. subst i.
-    assert (existsb (del_err f) (filter (loaded f) b) = true); [|congruence].
-    apply existsb_exists. exists x. split; [apply filter_In; auto|]. unfold del_err. now rewrite Hf.
-  - unfold noc_read in Hp. rewrite ED in Hp.
-    apply existsb_exists in Hp. destruct Hp as (x & Hx & E). apply Z.eqb_eq in E. subst i.
-    assert (existsb (noc_err f) (after_dedup f b) = true); [|congruence].
-    apply existsb_exists. exists x. split; auto. unfold noc_err. now rewrite Hf.
+    apply Z.eqb_eq in E. subst i. apply (HD x Hx Hl). now apply del_open_fault_err.
+  - apply existsb_exists in Hp. destruct Hp as (x & Hx & E). apply andb_true_iff in E. destruct E as [E Hd].
+    apply andb_true_iff in E. destruct E as [E Hl]. apply Z.eqb_eq in E. subst i.
+    apply (HD x Hx Hl). now apply del_body_fault_err.
+  - apply existsb_exists in Hp. destruct Hp as (x & Hx & E). apply Z.eqb_eq in E. subst i.
+    apply (HN x Hx). now apply noc_open_fault_err.
+  - apply existsb_exists in Hp. destruct Hp as (x & Hx & E). apply andb_true_iff in E. destruct E as [E Hn].
+    apply Z.eqb_eq in E. subst i. apply (HN x Hx). now apply noc_body_fault_err.
 Qed.
 
-Lemma iteration2_no_writes conc cleaner f b r work :
-  performed conc f b r = true -> f r = true -> iteration2 conc cleaner f b work = [].
+Lemma iteration2_no_writes conc cleaner old f b r work :
+  performed conc f b r = true -> f r = true -> iteration2 conc cleaner old f b work = [].
 Proof. intros Hp Hf. unfold iteration2. now rewrite (sync_fails conc f b r Hp Hf). Qed.
 
 (* a view is produced only when no performed read failed *)
@@ -130,10 +178,11 @@ Proof.
   intros Hs Hp. destruct (f r) eqn:E; auto. rewrite (sync_fails conc f b r Hp E) in Hs. discriminate.
 Qed.
 
-(* ... and it lists only blocks whose meta.json was read successfully and that the
-   deletion-mark filter did not hide *)
+(* ... and it lists only blocks whose meta.json was read successfully and completely and
+   that the deletion-mark filter did not hide; a block whose meta.json read failed is
+   never filed under "partial" *)
 Lemma sync_view_sound conc f b v i : sync conc f b = Some v -> In i (v_metas v) ->
-  exists x, In x b /\ sid x = i /\ smeta x = MOk /\ f (RMeta i) = false /\ del_hidden x = false.
+  exists x, In x b /\ sid x = i /\ smeta x = MOk /\ meta_faulted f x = false /\ del_hidden x = false.
 Proof.
   unfold sync. destruct (f RList); [discriminate|].
   destruct (conc && _); [discriminate|].
@@ -144,17 +193,34 @@ Proof.
   apply in_map_iff in Hi. destruct Hi as (x & <- & Hx).
   unfold after_dedup in Hx. apply filter_In in Hx. destruct Hx as [Hx _].
   unfold after_del in Hx. apply filter_In in Hx. destruct Hx as [Hxb Hc].
-  apply andb_true_iff in Hc. destruct Hc as [Hl Hh]. exists x. repeat split; auto.
-  - unfold loaded in Hl. destruct (smeta x); auto; discriminate.
-  - unfold loaded in Hl. destruct (smeta x); try discriminate. now apply negb_true_iff in Hl.
-  - now apply negb_true_iff in Hh.
+  apply andb_true_iff in Hc. destruct Hc as [Hl Hh]. destruct (loaded_not_faulted f x Hl) as [Hm Hnf].
+  exists x. repeat split; auto. now apply negb_true_iff in Hh.
+Qed.
+
+Lemma partial_not_faulted conc f b v i : sync conc f b = Some v -> In i (v_partial v) ->
+  exists x, In x b /\ sid x = i /\ (smeta x = MMissing \/ (smeta x = MCorrupt /\ meta_faulted f x = false)).
+Proof.
+  unfold sync. destruct (f RList); [discriminate|].
+  destruct (conc && _); [discriminate|].
+  destruct (existsb (del_err f) _); [discriminate|].
+  destruct (existsb (noc_err f) _); [discriminate|].
+  destruct (existsb (meta_err f) b); [discriminate|].
+  intros H. inversion H; subst; clear H. simpl. intros Hi.
+  apply in_map_iff in Hi. destruct Hi as (x & <- & Hx). apply filter_In in Hx. destruct Hx as [Hx Hp].
+  exists x. repeat split; auto. unfold is_partial, meta_result in Hp.
+  destruct (smeta x); simpl in Hp; auto; try discriminate.
+  - destruct (meta_faulted f x); discriminate.
+  - right. destruct (meta_faulted f x); [discriminate|auto].
 Qed.
 
 (* faults that agree on the meta and deletion-mark reads lead to the same later stages *)
-Lemma loaded_ext f g x : (forall i, f (RMeta i) = g (RMeta i)) -> loaded f x = loaded g x.
-Proof. intros H. unfold loaded. now rewrite H. Qed.
+Definition agree_meta (f g : faults) : Prop := forall i, f (RMeta i) = g (RMeta i) /\ f (RMetaBody i) = g (RMetaBody i).
+Definition agree_del (f g : faults) : Prop := forall i, f (RDel i) = g (RDel i) /\ f (RDelBody i) = g (RDelBody i).
 
-Lemma after_dedup_ext f g b : (forall i, f (RMeta i) = g (RMeta i)) -> after_dedup f b = after_dedup g b.
+Lemma loaded_ext f g x : agree_meta f g -> loaded f x = loaded g x.
+Proof. intros H. unfold loaded, meta_result, meta_faulted. destruct (H (sid x)) as [-> ->]. reflexivity. Qed.
+
+Lemma after_dedup_ext f g b : agree_meta f g -> after_dedup f b = after_dedup g b.
 Proof.
   intros H. unfold after_dedup, after_del.
   assert (E : filter (fun x => loaded f x && negb (del_hidden x)) b = filter (fun x => loaded g x && negb (del_hidden x)) b).
@@ -162,24 +228,29 @@ Proof.
   now rewrite E.
 Qed.
 
-Lemma noc_read_ext f g b : (forall i, f (RMeta i) = g (RMeta i)) -> (forall i, f (RDel i) = g (RDel i)) ->
-  noc_read f b = noc_read g b.
+Lemma noc_read_ext f g b : agree_meta f g -> agree_del f g -> noc_read f b = noc_read g b.
 Proof.
   intros Hm Hd. unfold noc_read.
   assert (E1 : filter (loaded f) b = filter (loaded g) b) by (apply filter_ext; intros; now apply loaded_ext).
   assert (E2 : existsb (del_err f) (filter (loaded g) b) = existsb (del_err g) (filter (loaded g) b)).
-  { apply existsb_ext'. intros x _. unfold del_err. now rewrite Hd. }
+  { apply existsb_ext'. intros x _. unfold del_err, del_result, del_faulted. destruct (Hd (sid x)) as [-> ->]. reflexivity. }
   rewrite E1, E2, (after_dedup_ext f g b Hm). reflexivity.
 Qed.
 
 Lemma rid_eqb_refl r : rid_eqb r r = true.
 Proof. destruct r; simpl; auto using Z.eqb_refl. Qed.
 
-(* every single fault position of the sync: failing exactly one of the reads a
-   fault-free sync performs makes the sync fail *)
+(* every single fault position and kind of the sync: failing exactly one of the reads a
+   fault-free sync performs — at the open or in the body — makes the sync fail *)
 Lemma single_fault conc b r : In r (read_order conc b) -> sync conc (only r) b = None.
 Proof.
   intros Hin. apply (sync_fails conc (only r) b r); [|apply rid_eqb_refl].
+  assert (Am : forall r', (forall i, r' <> RMeta i) -> (forall i, r' <> RMetaBody i) -> agree_meta (only r') (fun _ => false)).
+  { intros r' H1 H2 i. split; destruct r'; simpl; auto; [specialize (H1 i0)|specialize (H2 i0)];
+      destruct (Z.eqb_spec i0 i); auto; subst; congruence. }
+  assert (Ad : forall r', (forall i, r' <> RDel i) -> (forall i, r' <> RDelBody i) -> agree_del (only r') (fun _ => false)).
+  { intros r' H1 H2 i. split; destruct r'; simpl; auto; [specialize (H1 i0)|specialize (H2 i0)];
+      destruct (Z.eqb_spec i0 i); auto; subst; congruence. }
   unfold read_order in Hin. destruct Hin as [<-|Hin]; [reflexivity|].
   apply in_app_or in Hin. destruct Hin as [Hin|Hin].
   { destruct conc; [|contradiction]. apply in_map_iff in Hin. destruct Hin as (x & <- & Hx).
@@ -188,20 +259,35 @@ Proof.
   { apply in_map_iff in Hin. destruct Hin as (x & <- & Hx). apply filter_In in Hx. destruct Hx as [Hx Hm].
     simpl. apply existsb_exists. exists x. split; auto. now rewrite Z.eqb_refl. }
   apply in_app_or in Hin. destruct Hin as [Hin|Hin].
+  { apply in_map_iff in Hin. destruct Hin as (x & <- & Hx). apply filter_In in Hx. destruct Hx as [Hx Hm].
+    simpl. apply existsb_exists. exists x. split; auto. now rewrite Z.eqb_refl. }
+  apply in_app_or in Hin. destruct Hin as [Hin|Hin].
   { apply in_map_iff in Hin. destruct Hin as (x & <- & Hx). apply filter_In in Hx. destruct Hx as [Hx Hl].
     simpl. apply existsb_exists. exists x. split; auto. rewrite Z.eqb_refl. simpl.
-    rewrite (loaded_ext _ (fun _ => false) x); auto. }
+    rewrite (loaded_ext _ (fun _ => false) x); auto. apply Am; congruence. }
+  apply in_app_or in Hin. destruct Hin as [Hin|Hin].
+  { apply in_map_iff in Hin. destruct Hin as (x & <- & Hx). apply filter_In in Hx. destruct Hx as [Hx Hd].
+    apply filter_In in Hx. destruct Hx as [Hx Hl].
+    simpl. apply existsb_exists. exists x. split; auto. rewrite Z.eqb_refl, Hd. simpl.
+    rewrite (loaded_ext _ (fun _ => false) x); [now rewrite Hl|]. apply Am; congruence. }
+  apply in_app_or in Hin. destruct Hin as [Hin|Hin].
   { apply in_map_iff in Hin. destruct Hin as (x & <- & Hx).
-    simpl. rewrite (noc_read_ext _ (fun _ => false) b); auto.
+    simpl. rewrite (noc_read_ext _ (fun _ => false) b); [|apply Am; congruence|apply Ad; congruence].
     apply existsb_exists. exists x. split; auto. apply Z.eqb_refl. }
+  { apply in_map_iff in Hin. destruct Hin as (x & <- & Hx). apply filter_In in Hx. destruct Hx as [Hx Hn].
+    simpl. rewrite (noc_read_ext _ (fun _ => false) b); [|apply Am; congruence|apply Ad; congruence].
+    apply existsb_exists. exists x. split; auto. now rewrite Z.eqb_refl, Hn. }
 Qed.
 
-Lemma single_fault_no_writes conc cleaner b r work :
-  In r (read_order conc b) -> iteration2 conc cleaner (only r) b work = [].
+Lemma single_fault_no_writes conc cleaner old b r work :
+  In r (read_order conc b) -> iteration2 conc cleaner old (only r) b work = [].
 Proof. intros H. unfold iteration2. now rewrite (single_fault conc b r H). Qed.
 
 (* the trace view (part 1) of the structured sync: the sync fails exactly when its
    trace contains a failing read *)
+Lemma outcome_fails k r bv : read_fails (k, outcome_of r bv) = is_other r.
+Proof. destruct r as [[| |]|]; simpl; auto. destruct bv; reflexivity. Qed.
+
 Lemma sync_trace conc f b : is_none (sync conc f b) = sync_error (trace conc f b).
 Proof.
   assert (EL : read_fails (KList, if f RList then Transient else Found) = f RList) by (destruct (f RList); reflexivity).
@@ -210,12 +296,14 @@ Proof.
   { rewrite existsb_map. apply existsb_ext'. intros x _.
     destruct (f (RExists (sid x))); auto. destruct (has_meta x); auto. }
   assert (EM : existsb read_fails (@map bstate read (fun x => (KMeta, meta_outcome f x)) (filter has_meta b)) = existsb (meta_err f) b).
-  { rewrite existsb_map, existsb_filter. apply existsb_ext'. intros x _. unfold meta_outcome, meta_err, has_meta, read_fails.
-    destruct (smeta x), (f (RMeta (sid x))); reflexivity. }
+  { rewrite existsb_map, existsb_filter. apply existsb_ext'. intros x _. unfold meta_outcome. rewrite outcome_fails.
+    unfold meta_err, meta_result, has_meta. destruct (smeta x), (meta_faulted f x); reflexivity. }
   assert (ED : existsb read_fails (@map bstate read (fun x => (KDelMark, del_outcome f x)) (filter (loaded f) b)) = existsb (del_err f) (filter (loaded f) b)).
-  { rewrite existsb_map. apply existsb_ext'. intros x _. unfold del_outcome, del_err, read_fails. destruct (f (RDel (sid x))), (sdel x); reflexivity. }
+  { rewrite existsb_map. apply existsb_ext'. intros x _. unfold del_outcome. rewrite outcome_fails.
+    unfold del_err. destruct (del_result f x) as [[| |]|]; reflexivity. }
   assert (EN : existsb read_fails (@map bstate read (fun x => (KNoCompact, noc_outcome f x)) (noc_read f b)) = existsb (noc_err f) (noc_read f b)).
-  { rewrite existsb_map. apply existsb_ext'. intros x _. unfold noc_outcome, noc_err, read_fails. destruct (f (RNoc (sid x))), (snoc x); reflexivity. }
+  { rewrite existsb_map. apply existsb_ext'. intros x _. unfold noc_outcome. rewrite outcome_fails.
+    unfold noc_err. destruct (noc_result f x) as [[| |]|]; reflexivity. }
   assert (Econs : forall (a : read) l, existsb read_fails (a :: l) = read_fails a || existsb read_fails l) by reflexivity.
   unfold sync_error.
   destruct conc;
@@ -253,17 +341,18 @@ Proof.
   assert (E2 : existsb (del_err (fun _ => false)) (filter (loaded (fun _ => false)) b) = false).
   { apply not_true_is_false. intros H. apply existsb_exists in H. destruct H as (x & Hx & He).
     apply filter_In in Hx. destruct Hx as [Hx _]. destruct (Hw x Hx) as (_ & Hd & _).
-    unfold del_err in He. simpl in He. destruct (sdel x); try discriminate. congruence. }
+    unfold del_err, del_result, del_faulted in He. simpl in He. destruct (sdel x); try discriminate. congruence. }
   rewrite E2.
   assert (E3 : existsb (noc_err (fun _ => false)) (after_dedup (fun _ => false) b) = false).
   { apply not_true_is_false. intros H. apply existsb_exists in H. destruct H as (x & Hx & He).
     unfold after_dedup in Hx. apply filter_In in Hx. destruct Hx as [Hx _].
     unfold after_del in Hx. apply filter_In in Hx. destruct Hx as [Hx _]. destruct (Hw x Hx) as (_ & _ & Hn).
-    unfold noc_err in He. simpl in He. destruct (snoc x); try discriminate. congruence. }
+    unfold noc_err, noc_result, noc_faulted in He. simpl in He. destruct (snoc x); try discriminate. congruence. }
   rewrite E3.
   assert (E4 : existsb (meta_err (fun _ => false)) b = false).
   { apply not_true_is_false. intros H. apply existsb_exists in H. destruct H as (x & Hx & He).
-    destruct (Hw x Hx) as (Hm & _ & _). unfold meta_err in He. destruct (smeta x); try discriminate. congruence. }
+    destruct (Hw x Hx) as (Hm & _ & _). unfold meta_err, meta_result, meta_faulted, has_meta in He. simpl in He.
+    destruct (smeta x); try discriminate. congruence. }
   rewrite E4. eauto.
 Qed.
 
@@ -271,9 +360,12 @@ Lemma view_is_complete conc f b v :
   sync conc f b = Some v ->
   (forall r, performed conc f b r = true -> f r = false) /\
   (forall i, In i (v_metas v) ->
-     exists x, In x b /\ sid x = i /\ smeta x = MOk /\ f (RMeta i) = false /\ del_hidden x = false).
+     exists x, In x b /\ sid x = i /\ smeta x = MOk /\ meta_faulted f x = false /\ del_hidden x = false) /\
+  (forall i, In i (v_partial v) ->
+     exists x, In x b /\ sid x = i /\ (smeta x = MMissing \/ (smeta x = MCorrupt /\ meta_faulted f x = false))).
 Proof.
-  intros H. split.
+  intros H. split; [|split].
   - intros r. exact (sync_some_no_fault conc f b v r H).
   - intros i. exact (sync_view_sound conc f b v i H).
+  - intros i. exact (partial_not_faulted conc f b v i H).
 Qed.
